@@ -28,7 +28,11 @@ struct Cfg {
     days_by_env: bool,
     /// index of a listen address that is already taken by another listener when the server starts
     occupied: Option<usize>,
+    /// name of the data directory (any legal file name: blanks, '#', '?', '%41', non-ASCII, quotes)
+    dir_name: String,
 }
+
+const DIR_NAMES: [&str; 10] = ["my data", "store#1", "which?", "tasks%41", "d\u{e4}ta-\u{fc}", "a'b\"c", "x;y&z", "semi:colon=eq", "file:name", "trailing."];
 
 impl Cfg {
     fn json(&self) -> Value {
@@ -37,7 +41,7 @@ impl Cfg {
         json!({"listen": self.addrs, "listen_given_by": lf, "data_dir_by": if self.data_by_env { "DATA_DIR env" } else { "--data-dir" },
                "allow_list": self.allow.iter().map(|u| u.to_string()).collect::<Vec<_>>(), "allow_given_by": af,
                "snapshot_versions": self.versions, "snapshot_versions_by": if self.versions_by_env { "SNAPSHOT_VERSIONS env" } else { "--snapshot-versions" },
-               "occupied_address": self.occupied.map(|i| self.addrs[i].clone()), "snapshot_days": self.days, "snapshot_days_by": if self.days_by_env { "SNAPSHOT_DAYS env" } else { "--snapshot-days" }})
+               "data_dir_name": self.dir_name, "occupied_address": self.occupied.map(|i| self.addrs[i].clone()), "snapshot_days": self.days, "snapshot_days_by": if self.days_by_env { "SNAPSHOT_DAYS env" } else { "--snapshot-days" }})
     }
     fn launch(&self, dir: &std::path::Path) -> (Vec<String>, Vec<(String, String)>) {
         let mut args: Vec<String> = vec![];
@@ -140,6 +144,7 @@ fn gen_cfg(rng: &mut Rng) -> Option<Cfg> {
         days: if rng.pct(85) { Some(*rng.pick(&[0i64, 1, 2, 3, 5, 30])) } else { None },
         days_by_env: rng.pct(50),
         occupied: if occupy { Some(occ_idx) } else { None },
+        dir_name: if rng.pct(45) { "data".to_string() } else { rng.pick(&DIR_NAMES).to_string() },
     })
 }
 
@@ -159,7 +164,7 @@ fn fail(msg: String, cfg: &Cfg, case: usize) -> Found {
 /// One configuration end to end; returns a violation message if any.
 fn run_cfg(cfg: &Cfg, bin: &std::path::Path, rng: &mut Rng, cov: &mut Cov) -> Result<Option<String>, String> {
     let dir = ScratchDir::new("c17");
-    let data = dir.path().join("data");
+    let data = dir.path().join(&cfg.dir_name);
     let (args, env) = cfg.launch(&data);
     let eff = cfg.effective();
     // ---- a configured address that cannot be bound: the server must not come up half-configured
@@ -190,7 +195,22 @@ fn run_cfg(cfg: &Cfg, bin: &std::path::Path, rng: &mut Rng, cov: &mut Cov) -> Re
         cov.hit("unbindable-address:not-serving".into());
         return Ok(None);
     }
-    let mut proc = Proc::start(bin, &args, &env, &[], Duration::from_secs(20)).map_err(|e| format!("start: {e}"))?;
+    let mut proc = match Proc::start(bin, &args, &env, &[], Duration::from_secs(20)) {
+        Ok(p) => p,
+        Err(e) => {
+            if cfg.dir_name != "data" {
+                // does the same configuration start with a plain directory name?
+                let plain = dir.path().join("data");
+                let (a2, e2) = cfg.launch(&plain);
+                if let Ok(mut p2) = Proc::start(bin, &a2, &e2, &cfg.addrs, Duration::from_secs(20)) {
+                    p2.kill9();
+                    return Ok(Some(format!("the server does not start with the data directory {:?} ({e}) although it starts with the same configuration and a directory called \"data\" next to it", data.display().to_string())));
+                }
+            }
+            return Err(format!("start: {e}"));
+        }
+    };
+    cov.hit(format!("data-dir-name:{}", if cfg.dir_name == "data" { "plain" } else { "unusual" }));
     // every configured address must serve
     let t0 = std::time::Instant::now();
     for a in &cfg.addrs {
@@ -288,6 +308,11 @@ fn run_cfg(cfg: &Cfg, bin: &std::path::Path, rng: &mut Rng, cov: &mut Cov) -> Re
     // the database lives under the configured directory
     if !db_file(&data).is_file() {
         return Ok(Some(format!("no database file under the configured data directory {}", data.display())));
+    }
+    // ... and nowhere else: the configured directory is the only entry next to it
+    let siblings: Vec<String> = std::fs::read_dir(dir.path()).map(|r| r.filter_map(|e| e.ok()).map(|e| e.file_name().to_string_lossy().to_string()).filter(|n| *n != cfg.dir_name).collect()).unwrap_or_default();
+    if !siblings.is_empty() {
+        return Ok(Some(format!("the server was given the data directory {:?} but also created {siblings:?} next to it", data.display().to_string())));
     }
     // ---- what the server serves now (the reference for "a restart serves the same history")
     let mut reads: Vec<Req> = vec![Req::GetChild { parent: Uuid::nil() }];
@@ -460,7 +485,7 @@ pub fn finalize(out: ShardOut, is_replay: bool) -> CheckResult {
         "configurations_completed": out.executed,
         "situations": top.iter().take(40).map(|(k, v)| json!({"situation": k, "n": v})).collect::<Vec<_>>(),
     });
-    let required = ["unbindable-address:", "address-served:ipv4", "address-served:ipv6", "address-served:name", "allow:many", "allow:none", "kill9-restart", "urgency-by-versions:Low", "urgency-by-versions:High", "urgency-by-age:Low", "urgency-by-age:High", "urgency-by-age:None", "data-dir:env", "data-dir:flag"];
+    let required = ["unbindable-address:", "address-served:ipv4", "address-served:ipv6", "address-served:name", "allow:many", "allow:none", "kill9-restart", "urgency-by-versions:Low", "urgency-by-versions:High", "urgency-by-age:Low", "urgency-by-age:High", "urgency-by-age:None", "data-dir:env", "data-dir:flag", "data-dir-name:unusual"];
     let verdict = if !out.found.is_empty() {
         Verdict::Violated(out.found)
     } else if !out.errors.is_empty() {
